@@ -345,6 +345,15 @@ def gen_cases(ctx):
         yield c
     for i in range(ctx.n(700, 20000)):
         yield gen_send(rng, i)
+    # the same descriptor given for several UNIX_FD arguments of one call
+    for via in ('sendMessage', 'callRemote'):
+        for ts, ws, fdv in ((['h', 'h'], [0, 1], [5, 5]),
+                            (['s', 'h', 'h', 'h'], ['x', 0, 1, 2], [5, 7, 7]),
+                            ([['a', 'h']], [[0, 1, 2]], [7, 7, 7]),
+                            (['h', ['a', 'h']], [0, [1, 2]], [9, 9, 4]),
+                            ([['a', ['{', 's', 'h']]], [[['a', 0], ['b', 1]]], [3, 3])):
+            yield {'kind': 'send', 'fields': {'path': '/a', 'member': 'M'}, 'er': True, 'au': True, 'body': {'ts': ts, 'ws': ws},
+                   'shape': 7, 'via': via, 'nfds': len(fdv), 'fd_values': fdv}
 
 
 def gen_hs_cases(ctx):
@@ -933,11 +942,28 @@ def evaluate(ctx, cases, res):
     # ---- sending ---------------------------------------------------------------------------------
     send = [c for c, _ in concrete if c['kind'] == 'send']
     prepared = []
+    def subst_fds(v, table):
+        if isinstance(v, bool):
+            return v
+        if isinstance(v, int):
+            return table[v - 100] if 100 <= v < 100 + len(table) else v
+        if isinstance(v, list):
+            return [subst_fds(x, table) for x in v]
+        if isinstance(v, tuple):
+            return tuple(subst_fds(x, table) for x in v)
+        if isinstance(v, dict):
+            return {k: subst_fds(x, table) for k, x in v.items()}
+        return v
+
     for c in send:
         sig, vals = send_values(c, marshal)
         if c['body'] is not None and vals is None:
             bump('send_nonconforming_shape_skipped')
             continue
+        if c.get('fd_values') and vals is not None:
+            # directed: the SAME descriptor passed for several UNIX_FD arguments of one call (stdout and stderr, say):
+            # each argument still travels as its own attached descriptor, in argument order
+            vals = subst_fds(vals, c['fd_values'])
         prepared.append((c, sig, vals))
     lines, slines2, obs = [], [], []
     for c, sig, vals in prepared:
@@ -952,7 +978,7 @@ def evaluate(ctx, cases, res):
         if sig is not None:
             fields.append([8, 'g', sig])
         m = {'le': True, 'mt': 1, 'flags': (0 if c['er'] else 1) + (0 if c['au'] else 2), 'serial': serial0,
-             'fields': fields, 'body': c['body'], 'fds': [100 + j for j in range(c['nfds'])]}
+             'fields': fields, 'body': c['body'], 'fds': list(c.get('fd_values') or [100 + j for j in range(c['nfds'])])}
         slines2.append('(20 5 %s)' % common.dump(msg_sexp(m)))
     mo = common.run_model(lines)
     so = common.run_model(slines2)
